@@ -46,3 +46,13 @@ VARIANTS += [
     V("twin-misc-jvp-temporary", "torchsde/_core/misc.py", "    return convert_none_to_zeros(_jvp, dummy_outputs)\n",
       "    out = convert_none_to_zeros(_jvp, dummy_outputs)\n    return out\n", expect="silent"),
 ]
+
+VARIANTS += [
+    # session-4 repair: a combined method under its default name outlives the renaming of a part (the unrepaired code)
+    V("rename-keeps-stale-fused", BS, "            if name in stale:\n                continue\n", "", rule="R16.9"),
+    V("rename-stale-forgets-fused-prod", BS, "            if drift_and_diffusion_prod == 'f_and_g_prod':\n                stale.add('f_and_g_prod')\n", "", rule="R16.9"),
+    V("rename-stale-only-for-drift", BS, "        if drift != 'f' or diffusion != 'g':\n            if drift_and_diffusion", "        if drift != 'f':\n            if drift_and_diffusion", rule="R16.9"),
+    V("rename-stale-drops-explicitly-renamed-fused", BS, "            if drift_and_diffusion == 'f_and_g':\n                stale.add('f_and_g')\n", "            stale.add('f_and_g')\n", rule="R16"),
+    V("twin-rename-stale-as-list", BS, "        stale = set()\n        if diffusion != 'g' and diffusion_prod == 'g_prod':\n            stale.add('g_prod')\n",
+      "        stale = set()\n        if diffusion_prod == 'g_prod' and not diffusion == 'g':\n            stale.update(['g_prod'])\n", expect="silent"),
+]
